@@ -275,7 +275,7 @@ def check(run: core.Run, replay=None):
         metas = rng.sample(metas, 16000)
     with get_context("fork").Pool(16) as pool:
         recs = [r for part in pool.map(_tables_work, [metas[k::32] for k in range(32)]) for r in part]
-    hashes = [_hash_record(n, v) for n in ["None", "md5", ""] for v in ["None", "", "h", "h.dir"]]
+    hashes = [_hash_record(n, v) for n in ["None", "md5", "md5-dos2unix", "sha256", ""] for v in ["None", "", "h", "h.dir"]]
     tdir = tlc.SPECS / "trace"
     tlc.sany(str(tdir / "SerializeTablesTrace.tla"))
     import concurrent.futures as cf
